@@ -111,4 +111,60 @@ CHECKS = {
         floors={"any": {"evaluations": 20000}},
         assumptions=BEHAVIOUR_ASSUMPTIONS,
     ),
+
+    "C07": dict(
+        level="exploration",
+        rule="mem::forget of the pop/remove/swap_remove handle, of a drain/splice iterator after every (f front, b back) consumption prefix, and of a yielded item, from every state "
+             "and sub-range, followed by further operations and drop; monitors: prefix before the affected index unchanged, what follows drawn from the former elements, registry "
+             "(no duplicate, no dead element visible, no double destroy), Vec model re-synchronised to the visible contents; non-trivial = every case",
+        runs=[dict(mode="rel"), dict(mode="dbg", args=["--sub", "light"])],
+        floors={"any": {"evaluations": 20000}},
+        assumptions=BEHAVIOUR_ASSUMPTIONS,
+    ),
+    "C13": dict(
+        level="exploration",
+        rule="get/at/get_mut/at_mut and typed accessors at every index 0..=len+1 with handle reports (value_typeid, size, as_bytes address/length) checked; writes and swaps through 15 view/handle kinds "
+             "read back through the typed slice, erased get, iter and the byte view after every step; unconsumed removal handles and drained elements inspected/mutated/swapped before every fin; "
+             "non-trivial = every case",
+        runs=[dict(mode="rel"), dict(mode="dbg", args=["--sub", "light"])],
+        floors={"any": {"evaluations": 20000}},
+        assumptions=BEHAVIOUR_ASSUMPTIONS,
+    ),
+    "C17": dict(
+        level="exploration",
+        rule="into_raw_parts/from_raw_parts (1..3 times) from every state on every heap configuration and constraint set, inserted before every element-wise operation and sampled range operations, and inside random histories; "
+             "monitors: every RawParts field (and its field-wise clone) against the live vector, Drop/Clone and allocator event counters across the round trip, base pointer/capacity after rebuilding, Vec model afterwards, registry and allocator balance at the end",
+        runs=[dict(mode="rel"), dict(mode="dbg", args=["--sub", "light"])],
+        floors={"any": {"evaluations": 10000, "raw_round_trips_checked": 10000}},
+        assumptions=BEHAVIOUR_ASSUMPTIONS,
+    ),
+
+    "C05": dict(
+        level="exploration",
+        rule="the element / range / clone families and mixed random histories run on the instrumented user-defined backend (guard zones, poison fill, relocate on every capacity change, quarantine of released blocks; "
+             "growth policies exact / double / slack3) and on the built-in Heap under the instrumented global allocator with the same features; monitors: guard and quarantine scans after every step, element canaries "
+             "(uninitialised/stale bytes seen as elements), build/expand/resize/drop lifecycle log; non-trivial = case that moved at least one element or changed capacity",
+        runs=[dict(mode="rel"), dict(mode="dbg", args=["--sub", "light"])],
+        floors={"any": {"evaluations": 20000, "backend_relocations": 10000, "backend_guard_scans": 20000, "realloc(moved)": 1000}},
+        tool_kinds=["tool-memory", "crash"],
+        assumptions=BEHAVIOUR_ASSUMPTIONS + ["guard zones detect adjacent overruns only; non-adjacent wild writes are left to Miri/ASan modes"],
+    ),
+    "C11": dict(
+        level="exploration",
+        rule="element / range / clone / lazy families and random histories on Stack<SIZE> and StackN<N,SIZE> configurations from every state up to capacity (incl. len == capacity-1 and == capacity) with results of length <= cap, == cap and == cap+1; "
+             "monitors: Vec model with a capacity bound (push/insert beyond capacity must panic and change nothing), fixed capacity() value, per-thread allocation counter of the instrumented global allocator across every library call; "
+             "plus a SIZE/N grid of instantiations for capacity() and construction panics",
+        runs=[dict(mode="rel"), dict(mode="dbg", args=["--sub", "light"])],
+        floors={"any": {"evaluations": 20000, "stack_ops_watched": 20000, "rejections": 1000}},
+        assumptions=BEHAVIOUR_ASSUMPTIONS,
+    ),
+    "C18": dict(
+        level="exploration",
+        rule="element / range / capacity / clone families and random histories on Heap with non-allocating elements of every layout under the instrumented global allocator: after every step the number of live attributed blocks must equal the "
+             "number of vectors with capacity x size > 0, each vector's storage must lie inside one live block that is large and aligned enough, every realloc/dealloc must present the allocation's layout, no invalid layout may reach the allocator, nothing may stay allocated at the end; "
+             "capacity requests at the overflow boundaries in separate probes",
+        runs=[dict(mode="rel"), dict(mode="dbg", args=["--sub", "light"])],
+        floors={"any": {"evaluations": 20000, "heap_shape_checks": 20000, "alloc": 5000, "dealloc": 5000}},
+        assumptions=BEHAVIOUR_ASSUMPTIONS,
+    ),
 }
